@@ -294,3 +294,13 @@ contract("bacpypes.bvllservice:BIPForeign.unregister",
     params={"self": Foreign()},
     ensures=["unregister_ok(self, trace_then('to_net'), old(self.bbmdAddress))"],
     modifies=["self.registrationStatus", "self.bbmdAddress", "self.bbmdTimeToLive", "self.isScheduled", "self._registration_timeout_task.isScheduled"])
+
+def registering_ok(fd, addr, ttl):
+    return (fd.bbmdAddress == addr and fd.bbmdTimeToLive == ttl and fd.registrationStatus != -2         # results are listened to again, also after an unregister()
+            and fd.isScheduled == True and fd.taskTime == due(0, None) and fd._registration_timeout_task.isScheduled == False)
+
+contract("bacpypes.bvllservice:BIPForeign.register",
+    params={"self": Foreign(), "addr": Const(BBMD_ADDR), "ttl": Int(1, 65535)},
+    ensures=["registering_ok(self, addr, ttl)", "len(trace('to_net')) == 0"],
+    modifies=["self.bbmdAddress", "self.bbmdTimeToLive", "self.registrationStatus", "self.isScheduled", "self.taskTime", "self._registration_timeout_task.isScheduled"],
+    note="(re)starting a registration: the request goes out at once (task installed for time 0), whatever happened before")
